@@ -83,7 +83,7 @@ func (c *candidateBase) Done() <-chan struct{} {
 // Err implements context.Context.
 func (c *candidateBase) Err() error {
 	select {
-	case <-c.closedCh:
+	case <-c.closeCh:
 		return ErrRunCanceled
 	default:
 		return nil
